@@ -177,6 +177,52 @@ def const_value(node: Optional[ast.AST]):
     return None
 
 
+_CANON_MIRROR = {ast.Gt: ast.Lt, ast.GtE: ast.LtE}
+
+
+def _const_like(e: ast.AST) -> bool:
+    """Literals, None, tuples of literals, negative numbers and ENUM-like names (Class.UPPER_CASE)."""
+    if isinstance(e, ast.Constant):
+        return True
+    if isinstance(e, ast.UnaryOp) and isinstance(e.operand, ast.Constant):
+        return True
+    if isinstance(e, (ast.Tuple, ast.List)) and all(_const_like(x) for x in e.elts):
+        return True
+    if isinstance(e, ast.Attribute) and e.attr.isupper() and isinstance(e.value, ast.Name):
+        return True
+    return False
+
+
+def _side_effect_free(e: ast.AST) -> bool:
+    for x in ast.walk(e):
+        if isinstance(x, ast.Call) and not (isinstance(x.func, ast.Name) and x.func.id in ("len", "min", "max", "int", "float", "abs", "sum", "type", "tuple")):
+            return False
+        if isinstance(x, (ast.Await, ast.Yield, ast.YieldFrom, ast.NamedExpr, ast.Lambda)):
+            return False
+    return True
+
+
+def canonicalise_comparisons(tree: ast.AST) -> int:
+    """One spelling per comparison, applied to every module when it is loaded (the rules then see `a < b` whether the source says `a < b` or `b > a`):
+    `>` / `>=` become `<` / `<=` with swapped operands; in `==` / `!=` a constant-like operand goes to the right.  Only single-operator comparisons of side-effect-free operands are touched."""
+    k = 0
+    for n in ast.walk(tree):
+        if not (isinstance(n, ast.Compare) and len(n.ops) == 1):
+            continue
+        l, r, op = n.left, n.comparators[0], n.ops[0]
+        if not (_side_effect_free(l) and _side_effect_free(r)):
+            continue
+        if type(op) in _CANON_MIRROR:
+            n.left, n.comparators[0], n.ops[0] = r, l, _CANON_MIRROR[type(op)]()
+            k += 1
+        elif isinstance(op, (ast.Eq, ast.NotEq)):
+            # (two non-constant operands keep their source order: any tie-break by text would depend on the spelling of locals)
+            if _const_like(l) and not _const_like(r):
+                n.left, n.comparators[0] = r, l
+                k += 1
+    return k
+
+
 class Repo:
     def __init__(self, root: str = "/repo", package: str = "agilerl", overrides: Optional[Dict[str, str]] = None):
         self.root = root
@@ -214,6 +260,8 @@ class Repo:
                     tree = ast.parse(src, filename=path)
                 except SyntaxError as e:
                     raise AnalysisError(f"{rel} does not parse: {e}")
+                if os.environ.get("AGILINT_CANON", "1") != "0":
+                    canonicalise_comparisons(tree)
                 mod = Mod(modname, path, rel, src, tree, is_pkg=is_pkg)
                 self._index(mod)
                 self.mods[modname] = mod
